@@ -1,27 +1,33 @@
-# Property configuration for bin/check: jobs (which explorer binary / sub-check), evidence level,
-# the distinct/non-trivial rule and the standing assumptions (DESIGN §5).
-COMMON_ASSUME = [
-    "bounded-exhaustive: nothing outside the enumerated scopes/bounds is claimed",
-    "reference models in /verif/harness are the trusted base",
-]
+# Property configuration for bin/check, assembled from bin/cfg/Cxx.py (one file per claimed property):
+# jobs (explorer binary variant + sub-check id), evidence level, distinct/non-trivial rule, assumptions.
+import glob, importlib.util, os, sys
 
-PROPS = {
-    "C17": {
-        "level": "model_checking",
-        "technique": "bounded-exhaustive enumeration of basis/lattice families against textbook references (interpolation argument for the (bi)linear and polynomial forms)",
-        "jobs": [{"variant": "plain", "id": "C17"}],
-        "engine": "enum",
-        "level_text": "Every member of explicitly stated finite families (quaternion tensor grid, all 26² lattice direction pairs plus a near-(anti)parallel ladder, all 16×16 matrix basis pairs, ~72k sparse integer matrices for det/inverse, TRS and mesh-transform grids, dyadic AABB lattices) is executed on the real code and compared with textbook references; exhaustive within the families, and by linearity/polynomial interpolation decisive for Add/Multiply/MulPosition/Rotate beyond them.",
-        "level_note": "Trusted: the reference formulas in harness/props/c17 (Hamilton product, Leibniz determinant, Rodrigues). Assumes Rotate/Add/Multiply stay branch-free polynomial forms; values outside the grids are not claimed for Determinant/Inverse/RotationTo/AABB.",
-        "rule": "every member of the stated finite families is executed; a case is non-trivial when its operands are non-zero; distinct by operand tuple",
-        "assumptions": COMMON_ASSUME + ["Rotate stays a polynomial of degree 2 in q and 1 in v; Add/Multiply/MulPosition stay branch-free (bi)linear forms"],
-    },
-}
+_here = os.path.dirname(os.path.abspath(__file__))
+sys.path.insert(0, _here)
+PROPS = {}
+for _f in sorted(glob.glob(os.path.join(_here, "cfg", "C*.py"))):
+    _id = os.path.basename(_f)[:-3]
+    _spec = importlib.util.spec_from_file_location("cfg_" + _id, _f)
+    _m = importlib.util.module_from_spec(_spec)
+    _spec.loader.exec_module(_m)
+    PROPS[_id] = _m.CFG
 
-# Properties not claimed (each with a reason). Kept current as checks are added.
 ALL = ["C%02d" % i for i in range(1, 21)]
-NOT_APPLICABLE = [{"property_id": p, "reason": "check not built yet in this session (work in progress; DESIGN §4 describes the planned explorer)"} for p in ALL if p not in PROPS]
+_REASONS = {}
+NOT_APPLICABLE = [{"property_id": p, "reason": _REASONS.get(p, "check not built yet (work in progress; DESIGN.md §4 describes the planned explorer)")} for p in ALL if p not in PROPS]
+
+def _serves(engine):
+    return sorted(p for p, c in PROPS.items() if engine in c.get("engines", [c.get("engine", "enum")]))
 
 ENGINES = [
-    {"name": "enum", "path": "harness/core + harness/props/*", "serves_properties": sorted(PROPS), "kind_free_text": "bounded-exhaustive enumeration of inputs/configurations on the real code against independent reference models, sharded over 16 processes"},
+    {"name": "enum", "path": "harness/core, harness/props/*", "serves_properties": _serves("enum"),
+     "kind_free_text": "bounded-exhaustive enumeration of inputs/configurations on the real code against independent reference models, sharded over 16 processes"},
+    {"name": "opseq", "path": "harness/opseq", "serves_properties": _serves("opseq"),
+     "kind_free_text": "explicit-state / stateless search over operation histories whose transition function is the implementation itself"},
+    {"name": "sched", "path": "rt/vsched, rt/vsync, tools/vinstr", "serves_properties": _serves("sched"),
+     "kind_free_text": "controlled scheduler (preemption-bounded DFS over all interleavings) with the race detector kept meaningful; build-time instrumentation by overlay"},
+    {"name": "mapord", "path": "tools/goroot-overlay", "serves_properties": _serves("mapord"),
+     "kind_free_text": "Go map iteration order as an owned, enumerated environment choice (runtime overlay)"},
+    {"name": "cut", "path": "harness/props/c14, rt/vbudget", "serves_properties": _serves("cut"),
+     "kind_free_text": "every cut point of every file of a family, deterministic loop-budget hang detection"},
 ]
